@@ -38,6 +38,8 @@ pub enum Inject {
     Clone(i64),
     /// the k-th invocation of a for_each / fold closure panics
     Closure(i64),
+    /// the k-th destructor run of an element panics (after it has been counted)
+    Drop(i64),
 }
 
 #[derive(Clone, Debug)]
@@ -213,7 +215,9 @@ where
                 None => ctx.close(Res::End),
                 Some(x) => {
                     let i = ctx.item(&x, usize::MAX);
+                    ctx.cur_items.push(i);
                     drop(x);
+                    ctx.cur_items.clear();
                     ctx.close(Res::Items { begin: usize::MAX, announced: usize::MAX, requested: 1, items: vec![i], len_trace_ok: true, extra_after_end: false });
                 }
             }
@@ -246,7 +250,9 @@ where
         }
         Op::Buffered { n, pulls, consume } => {
             let mut b = it.buffered_iter(*n);
-            for _ in 0..*pulls {
+            for j in 0..*pulls {
+                // a partly consumed chunk is followed by one that is drained to its end
+                let consume = if *consume != usize::MAX && j % 2 == 1 { usize::MAX } else { *consume };
                 ctx.call(code);
                 let r = b.next();
                 ctx.returned();
@@ -256,7 +262,7 @@ where
                         break;
                     }
                     Some(c) => {
-                        let res = take_chunk(ctx, c.begin_idx, c.values, *n, *consume);
+                        let res = take_chunk(ctx, c.begin_idx, c.values, *n, consume);
                         ctx.close(res);
                     }
                 }
@@ -459,6 +465,7 @@ where
         Inject::WrappedNext(k) => PROBE.panic_at.store(k, Ordering::Relaxed),
         Inject::Clone(k) => CLONE_PANIC_AT.store(k, Ordering::Relaxed),
         Inject::Closure(k) => CLOSURE_PANIC_AT.store(k, Ordering::Relaxed),
+        Inject::Drop(k) => DROP_PANIC_AT.store(k, Ordering::Relaxed),
     }
     let tmd = std::time::Instant::now();
     let timing = std::env::var("OCV_TIMING").is_ok();
@@ -569,6 +576,11 @@ where
                 while v.len() < take {
                     match s.next() {
                         Some(x) => {
+                            if info.non_fused && x.ident(info).id >= info.len as u64 {
+                                // the harness itself polled a non-fused source past its end
+                                complete = true;
+                                break;
+                            }
                             v.push(x.ident(info));
                             drop(x);
                             if v.len() > cap {
@@ -600,6 +612,7 @@ where
     recs.sort_by_key(|r| (r.t0, r.thread));
 
     let injected = cfg.inject != Inject::None;
+    DROP_PANIC_AT.store(-1, Ordering::Relaxed);
     let hist = Hist {
         info,
         recs: &recs,
